@@ -65,6 +65,13 @@ def eval_set(case):
     except Exception as e:
         return {'v': [('delegations/build-raises', f'{type(e).__name__}: {e} for {case}')], 'nt': None, 'out': 'build-raise'}
     want = describe(ds)
+    # what was built is what was asked for (the expectation does not come from the objects under test alone)
+    for did, (f, pool, di) in members:
+        w = want.get(did)
+        asked = (T[t], FMT[f], pool, details_fields(mk_details(t, di)) if di is not None else None, did)
+        if w != asked:
+            bad('delegations/constructed-differs', f'{did}: asked for {asked}, the container holds {w}')
+            return {'v': v, 'nt': (t, tuple(members)), 'out': 'constructed-differs'}
     text = ds.to_json()
     try:
         back = Delegations.from_json(json_str=text, atype=T[t])
